@@ -30,24 +30,43 @@ func tagBody(tag string, n int) []byte {
 }
 
 func runConcurrentCells(r *hk.Run, rng *hk.Rand) {
-	type startFn func() (*origin.Origin, error)
-	for _, pr := range []struct {
-		p     int
-		start startFn
-	}{{3, origin.StartH3}, {2, origin.StartH2C}, {1, origin.StartH1}} {
-		for _, cc := range []concCell{{pr.p, 8, r.Scale(12, 120), 9000}, {pr.p, 16, r.Scale(8, 80), 300}} {
-			o, err := pr.start()
-			if err != nil {
-				r.Fail(hk.Failure{Sig: "origin-start", What: err.Error()})
-				continue
+	for _, p := range []int{3, 2, 1} {
+		for _, cc := range []concCell{{p, 8, r.Scale(12, 120), 9000}, {p, 16, r.Scale(8, 80), 300}} {
+			var url string
+			var ch chan origin.Obs
+			var closeFn func()
+			switch p {
+			case 3:
+				o, err := startH3Safe()
+				if err != nil {
+					r.Fail(hk.Failure{Sig: "origin-start", What: err.Error()})
+					continue
+				}
+				url, ch, closeFn = o.URL, o.C, o.Close
+			default:
+				start := origin.StartH2C
+				if p == 1 {
+					start = origin.StartH1
+				}
+				o, err := start()
+				if err != nil {
+					r.Fail(hk.Failure{Sig: "origin-start", What: err.Error()})
+					continue
+				}
+				url, ch, closeFn = o.URL, o.C, o.Close
 			}
-			runConcurrentCell(r, rng, o, cc)
-			o.Close()
+			runConcurrentCell(r, rng, tagOrigin{url, ch}, cc)
+			closeFn()
 		}
 	}
 }
 
-func runConcurrentCell(r *hk.Run, rng *hk.Rand, o *origin.Origin, cc concCell) {
+type tagOrigin struct {
+	URL string
+	C   chan origin.Obs
+}
+
+func runConcurrentCell(r *hk.Run, rng *hk.Rand, o tagOrigin, cc concCell) {
 	c := req.C().SetTimeout(60 * time.Second)
 	c.SetLogger(nil)
 	switch cc.Proto {
